@@ -1011,7 +1011,15 @@ class StructuredTypeUnmarshaller(AbstractUnmarshaller[_ST]):
     def _fields_by_var(self):
         fields_by_var = {}
         hints = inspection.cached_type_hints(self.t)
+        # A dataclass field declared with `init=False` is not a constructor argument.
+        no_init = {
+            f.name
+            for f in getattr(self.t, "__dataclass_fields__", {}).values()
+            if not f.init
+        }
         for name, hint in hints.items():
+            if name in no_init:
+                continue
             resolved = refs.evaluate(hint)
             m = self.context.get(hint) or self.context.get(resolved)
             if m is None:
